@@ -42,6 +42,27 @@ func (x *Run) callValue(fr *Frame, st *State, fv Val, cc *ssa.CallCommon, args [
 			return x.builtin(fr, st, b, cc, args, site)
 		}
 	}
+	if fv.Clo == nil && fv.Origin != "" {
+		if sf := x.spec.fieldFns[fv.Origin]; sf != nil {
+			st.events = append(st.events, Event{Name: "call:fieldfn:" + fv.Origin, Args: args})
+			idx := len(st.events) - 1
+			outs := x.runFunc(sf, args, nil, st, fr, ModeNormal)
+			for i := range outs {
+				if !outs[i].panic && idx < len(outs[i].st.events) {
+					ev := append([]Event(nil), outs[i].st.events...)
+					ev[idx].Ret = outs[i].ret
+					outs[i].st.events = ev
+				}
+			}
+			return outs
+		}
+	}
+	if fv.Clo == nil {
+		if sf := x.spec.dynCallSpec(site); sf != nil {
+			st.events = append(st.events, Event{Name: "call:dyncall:" + x.fnShort(sf), Args: args})
+			return x.runFunc(sf, args, nil, st, fr, ModeNormal)
+		}
+	}
 	if fv.Clo == nil {
 		// unknown function value
 		var sig *types.Signature
@@ -64,6 +85,30 @@ func (x *Run) dynamicUnknown(fr *Frame, st *State, what string, sig *types.Signa
 		ret = x.freshResults(st, sig.Results())
 	}
 	return single(st, ret)
+}
+
+// extResults: results of a library call. A-ERRNIL: when the last result is
+// an error and it is nil, pointer / interface results are non-nil (the Go
+// library convention for constructors such as net.Listen, url.Parse, ...).
+func (x *Run) extResults(st *State, rt *types.Tuple) Val {
+	r := x.freshResults(st, rt)
+	if rt == nil || rt.Len() < 2 || r.S != "Tuple" {
+		return r
+	}
+	last := r.Tup[rt.Len()-1]
+	if last.S != SIface || !types.Identical(rt.At(rt.Len()-1).Type(), types.Universe.Lookup("error").Type()) {
+		return r
+	}
+	for i := 0; i < rt.Len()-1; i++ {
+		v := r.Tup[i]
+		switch types.Unalias(rt.At(i).Type()).Underlying().(type) {
+		case *types.Pointer:
+			st.assume(implies(eq(last.T, "inil"), fmt.Sprintf("(> %s 0)", v.T)))
+		case *types.Interface:
+			st.assume(implies(eq(last.T, "inil"), not(eq(v.T, "inil"))))
+		}
+	}
+	return r
 }
 
 func (x *Run) freshResults(st *State, rt *types.Tuple) Val {
@@ -221,7 +266,7 @@ func (x *Run) onStack(fr *Frame, fn *ssa.Function) bool {
 
 func (x *Run) applyHavoc(st *State, ms *ModSet) {
 	if ms.Top {
-		x.havocAll(st)
+		x.havocAllExcept(st, ms.Preserves)
 		return
 	}
 	for _, a := range sortedKeys(ms.Arrs) {
@@ -278,7 +323,7 @@ func (x *Run) opaqueExternal(fr *Frame, st *State, fn *ssa.Function, args []Val,
 			x.havocPointee(st, a)
 		}
 	}
-	ret := x.freshResults(st, fn.Signature.Results())
+	ret := x.extResults(st, fn.Signature.Results())
 	st.events = append(st.events, Event{Name: "call:" + fn.String(), Args: args, Ret: ret})
 	return single(st, ret)
 }
@@ -331,6 +376,10 @@ func (x *Run) invoke(fr *Frame, st *State, recv Val, cc *ssa.CallCommon, args []
 			return x.useContract(fr, st, con, all, site)
 		}
 	}
+	if x.spec.getters[full] {
+		// effect-free attribute of the receiver (assumed constant for an object)
+		return single(st, x.ufApply(st, "getter."+sanitize(full), []Val{recv}, cc.Signature().Results()))
+	}
 	// dynamic type known on this path
 	if recv.Inner != nil && recv.Inner.Ty != nil {
 		if fn := x.prog.LookupMethod(recv.Inner.Ty, m.Pkg(), m.Name()); fn != nil {
@@ -365,7 +414,7 @@ func (x *Run) invoke(fr *Frame, st *State, recv Val, cc *ssa.CallCommon, args []
 	for _, a := range args {
 		x.havocPointee(st, a)
 	}
-	iret := x.freshResults(st, cc.Signature().Results())
+	iret := x.extResults(st, cc.Signature().Results())
 	st.events = append(st.events, Event{Name: "invoke:" + full, Args: all, Ret: iret})
 	return single(st, iret)
 }
@@ -468,11 +517,18 @@ func (x *Run) builtin(fr *Frame, st *State, b *ssa.Builtin, cc *ssa.CallCommon, 
 		return ret(Val{T: "unit", S: SUnit})
 	case "close":
 		ch := args[0]
-		cca := x.chClosedArr(cc.Args[0].Type())
+		cca := x.chClosedFor(ch, cc.Args[0].Type())
 		closed := sel(x.arr(st, cca), ch.T)
 		x.mayPanic(fr, st, and(not(closed), not(eq(ch.T, "0"))), "close-of-closed", site, &outs)
 		x.setArr(st, cca, store(x.arr(st, cca), ch.T, "true"))
-		st.events = append(st.events, Event{Name: "close", Args: []Val{ch}})
+		if !isNegLit(ch.T) {
+			st.dirty[cca] = true
+		}
+		cname := "close"
+		if ch.Origin != "" {
+			cname = "close:" + ch.Origin
+		}
+		st.events = append(st.events, Event{Name: cname, Args: []Val{ch}})
 		return ret(Val{T: "unit", S: SUnit})
 	case "recover":
 		if st.ghost["panicking"] == "1" {
